@@ -275,4 +275,247 @@ Proof.
       cbn zeta. split; [assumption|]. split; [assumption|congruence].
 Qed.
 
+(* ------------------------------------------------------------------ *)
+(* one operation of the world machine *)
+
+Definition intro_uids (o : uop) : list N :=
+  match o with UCreate cs => comp_uids cs | UInsert _ _ v => [fst v] | _ => [] end.
+
+Fixpoint somes {A} (l : list (option A)) : list A :=
+  match l with [] => [] | Some x :: l' => x :: somes l' | None :: l' => somes l' end.
+
+(* the component values an output hands to the caller *)
+Definition out_toks (o : uout) : list tok :=
+  match o with
+  | XIns (InsOld t) => [t]
+  | XOptTok (Some t) => [t]
+  | XGets l => somes l
+  | XJoin l => map snd l
+  | XSlice v => slice_toks v
+  | _ => []
+  end.
+
+(* the one case in which a vacant cell of a DefaultVecStorage ends up holding
+   a value that is not the default: see RelP.v *)
+Definition orphan_ok (w : uworld) (o : uop) (f : fctx) : Prop :=
+  forall sid h v ms e, o = UInsert sid h v -> NM.find sid (uw_stores w) = Some ms -> uhget (uw_hs w) h = Some e ->
+    av_alive (ua_view (uw_alloc w)) e = true -> NS.mem (fst e) (ms_mask ms) = false ->
+    f_pan (snd (st_insert_f ms (ua_view (uw_alloc w)) e v f)) = true -> P (tnorm ms v).
+
+Definition step_ok (f : fctx) (L0 used : list N) (o : uop) (res : uworld * uout * fctx) : Prop :=
+  (exists G', LJ P (uw_stores (fst (fst res))) G' (cx_drops (fx (snd res)) ++ L0) (intro_uids o ++ used)) /\
+  cx_stuck (fx (snd res)) = cx_stuck (fx f) /\
+  (forall t, In t (out_toks (snd (fst res))) -> real (fst t) = true -> ~ In (fst t) (cx_drops (fx f) ++ L0)).
+
+Lemma step_ok_same w G f L0 used o out : LJ P (uw_stores w) G (cx_drops (fx f) ++ L0) used ->
+  (forall t, In t (out_toks out) -> real (fst t) = true -> ~ In (fst t) (cx_drops (fx f) ++ L0)) ->
+  step_ok f L0 used o (w, out, f).
+Proof.
+  intros HJ Ho. unfold step_ok. cbn [fst snd]. split; [|auto]. exists G.
+  eapply real_guard_used; [exact HJ|]. intros u _ Hin. apply in_or_app. right. assumption.
+Qed.
+
+Lemma own_new k wr u i t : ~ own (ms_new k wr u) (NM.empty tok) i t.
+Proof.
+  intros [H|[_ [cells [E Hg]]]]; [rewrite find_empty in H; discriminate|].
+  cbn [ms_new ms_raw] in E. destruct k; cbn [raw_new] in E; try discriminate. inversion E; subst cells.
+  unfold pv_get, pv_empty in Hg. cbn [vlen] in Hg. destruct (N.ltb_spec i 0); [lia|discriminate].
+Qed.
+
+Lemma a_alloc_alive a : a_is_alive (fst (a_alloc a)) (snd (a_alloc a)) = true.
+Proof.
+  assert (forall a2 id, a_is_alive (fst (raise_gen a2 id)) (id, snd (raise_gen a2 id)) = true) as H.
+  { intros a2 id. unfold raise_gen, a_is_alive, cur_gen. cbn [fst snd].
+    destruct (Z.ltb_spec 0 (gen_at a2 id)) as [Hpos|Hle]; cbn [fst snd].
+    - replace (gen_at (set_stuck a2) id) with (gen_at a2 id) by reflexivity.
+      destruct (Z.leb_spec (gen_at a2 id) 0); [lia|]. cbn [andb]. destruct (Z.eqb_spec (gen_at a2 id) 0); [lia|]. apply Z.eqb_refl.
+    - assert (gen_at (set_gen a2 id (1 - gen_at a2 id)) id = 1 - gen_at a2 id)%Z as ->.
+      { unfold gen_at, set_gen. cbn [gens]. rewrite NMF.add_eq_o by reflexivity. reflexivity. }
+      destruct (Z.leb_spec (1 - gen_at a2 id) 0); [lia|]. cbn [andb]. destruct (Z.eqb_spec (1 - gen_at a2 id) 0); [lia|]. apply Z.eqb_refl. }
+  unfold a_alloc. destruct (pv_pop (pv_truncate (cache a) (clen a))) as [c1 [id|]]; lazy beta iota zeta;
+    match goal with |- context [raise_gen ?a2 ?i] => specialize (H a2 i); destruct (raise_gen a2 i) as [a3 g] end; exact H.
+Qed.
+
+Lemma extract_sid_perm u : forall l x r, extract_sid u l = Some (x, r) -> Permutation l (x :: r).
+Proof.
+  induction l as [|y l IH]; intros x r H; cbn [extract_sid] in H; [discriminate|].
+  destruct (N.eqb (fst y) u).
+  - inversion H; subst. apply Permutation_refl.
+  - destruct (extract_sid u l) as [[z r']|] eqn:E; [|discriminate]. inversion H; subst.
+    eapply perm_trans; [apply perm_skip; apply (IH _ _ eq_refl)|]. apply perm_swap.
+Qed.
+
+Lemma pick_by_sid_perm ord : forall l, Permutation (pick_by_sid ord l) l.
+Proof.
+  induction ord as [|u ord IH]; intros l; cbn [pick_by_sid]; [apply Permutation_refl|].
+  destruct (extract_sid u l) as [[x r]|] eqn:E; [|apply IH].
+  eapply perm_trans; [apply perm_skip; apply IH|]. apply Permutation_sym. apply (extract_sid_perm _ _ _ _ E).
+Qed.
+
+Lemma drop_world_LJ orc stores G f L0 used :
+  LJ P stores G (cx_drops (fx f) ++ L0) used -> f_pan f = false ->
+  let f' := drop_stores_f orc (pick_by_sid (o_sids orc) (NM.elements stores)) f in
+  LJ P (NM.empty mstore) (NM.empty (NM.t tok)) (cx_drops (fx f') ++ L0) used /\ cx_stuck (fx f') = cx_stuck (fx f).
+Proof.
+  intros HJ Hp. cbn zeta. pose proof (pick_by_sid_perm (o_sids orc) (NM.elements stores)) as Hperm.
+  destruct (drop_stores_LJ orc (pick_by_sid (o_sids orc) (NM.elements stores)) stores G f L0 used HJ Hp) as [A [B C]].
+  - eapply Permutation_NoDup; [apply Permutation_map; apply Permutation_sym; exact Hperm|]. apply elements_keys_nodup.
+  - intros sid ms Hin. apply in_elements_iff. eapply Permutation_in; eassumption.
+  - split; [apply LJ_empty; assumption|assumption].
+Qed.
+
+Lemma somes_in {A} (l : list (option A)) x : In x (somes l) <-> In (Some x) l.
+Proof.
+  induction l as [|[y|] l IH]; cbn [somes In]; [tauto| |].
+  - rewrite IH. split; intros [H|H]; auto; [left; congruence|inversion H; auto].
+  - rewrite IH. split; [auto|intros [H|H]; [discriminate|assumption]].
+Qed.
+
+Theorem ustep_core_ok orc w o f G L0 used :
+  LJ P (uw_stores w) G (cx_drops (fx f) ++ L0) used -> f_pan f = false ->
+  (is_destroying o = false -> f_arm f = O) ->
+  fresh (intro_uids o) used -> orphan_ok w o f ->
+  step_ok f L0 used o (ustep_core orc w o f).
+Proof.
+  intros HJ Hp Harm Hfr Horph. pose proof (LJ_inv P _ _ _ _ HJ) as HW.
+  assert (forall sid ms i t, NM.find sid (uw_stores w) = Some ms -> forall m, NM.find sid G = Some m -> own ms m i t ->
+            real (fst t) = true -> ~ In (fst t) (cx_drops (fx f) ++ L0)) as Hlive.
+  { intros sid ms i t Hs m Hg Ho. apply (LJ_live _ _ _ _ _ HJ sid i t). exists ms, m. auto. }
+  unfold ustep_core. destruct o; cbv zeta beta.
+  - (* register *)
+    cbn [intro_uids] in *. destruct (kind_of sid) as [[k wr]|] eqn:Ek; [|apply (step_ok_same w G); [assumption|intros t []]].
+    unfold step_ok, uw_register. rewrite Ek. cbn [fst snd uw_stores out_toks intro_uids app].
+    split; [|split; [reflexivity|intros t []]].
+    destruct (NM.find sid (uw_stores w)) eqn:Hs; [eauto|].
+    exists (NM.add sid (NM.empty tok) G). apply LJ_register; [assumption|assumption| |apply own_new].
+    apply MInvP_new. intros ->. reflexivity.
+  - (* create *)
+    match goal with |- context [forallb ?g cs] => destruct (forallb g cs) eqn:Hall end; [|apply (step_ok_same w G); [assumption|intros t []]].
+    pose proof (a_alloc_alive (uw_alloc w)) as Hal. destruct (a_alloc (uw_alloc w)) as [a' e]. cbn [fst snd] in Hal.
+    destruct (insert_comps_LJ (ua_view a') e cs (uw_stores w) G f L0 used HJ Hp (Harm eq_refl) Hfr Hal) as [G' [A [B C]]].
+    { intros c Hc Hn. rewrite forallb_forall in Hall. specialize (Hall c Hc). cbv beta in Hall. change (@fst NM.key tok c) with (@fst N tok c) in Hall. rewrite Hn in Hall. discriminate. }
+    destruct (insert_comps_f (uw_stores w) (ua_view a') e cs f) as [stores f1]. cbn [fst snd] in *.
+    unfold step_ok. cbn [fst snd uw_stores intro_uids]. split; [eauto|]. split; [assumption|].
+    unfold out_unless_panic. rewrite C. intros t [].
+  - (* arm *) apply (step_ok_same w G); [assumption|intros t []].
+  - (* clear *)
+    destruct (NM.find sid (uw_stores w)) as [ms|] eqn:Hs; [|apply (step_ok_same w G); [assumption|intros t []]].
+    destruct (clear_LJ (hord_of sid orc) _ G f L0 used sid ms HJ Hp Hs) as [A [B _]].
+    destruct (m_clear_f (hord_of sid orc) ms f) as [ms1 f1]. cbn [fst snd] in *.
+    unfold step_ok. cbn [fst snd uw_put uw_with uw_stores intro_uids app]. split; [eauto|]. split; [assumption|].
+    unfold out_unless_panic. destruct (f_pan f1); intros t [].
+  - (* remove *)
+    destruct (NM.find sid (uw_stores w)) as [ms|] eqn:Hs; [|apply (step_ok_same w G); [assumption|intros t []]].
+    destruct (uhget (uw_hs w) h) as [e|]; [|apply (step_ok_same w G); [assumption|intros t []]].
+    pose proof (remove_LJ _ G f L0 used sid ms (ua_view (uw_alloc w)) e HJ Hp Hs) as X. cbn zeta in X.
+    destruct (st_remove_f ms (ua_view (uw_alloc w)) e f) as [[ms1 r] f1]. cbn [fst snd] in *.
+    destruct X as [X1 [X2 X3]]. unfold step_ok. cbn [fst snd uw_put uw_with uw_stores intro_uids app out_toks].
+    split; [assumption|]. split; [assumption|]. destruct r as [t0|]; [|intros t []]. intros t [<-|[]]. apply X3. reflexivity.
+  - (* insert *)
+    destruct (NM.find sid (uw_stores w)) as [ms|] eqn:Hs; [|apply (step_ok_same w G); [assumption|intros t []]].
+    destruct (uhget (uw_hs w) h) as [e|] eqn:He; [|apply (step_ok_same w G); [assumption|intros t []]].
+    cbn [intro_uids] in Hfr. destruct (fresh_cons _ _ _ Hfr) as [Hfv _].
+    pose proof (insert_LJ _ G f L0 used sid ms (ua_view (uw_alloc w)) e v HJ Hp Hs Hfv) as X. cbn zeta in X.
+    assert (forall m, NM.find sid G = Some m -> av_alive (ua_view (uw_alloc w)) e = true -> NM.find (fst e) m = None ->
+              f_pan (snd (st_insert_f ms (ua_view (uw_alloc w)) e v f)) = true -> P (tnorm ms v)) as Ho.
+    { intros m Hg Hal Hf Hq. apply (Horph sid h v ms e eq_refl Hs He Hal); [|assumption].
+      destruct (WJ_lookup _ _ _ _ HW Hs) as [m' [Hg' HM]]. rewrite Hg in Hg'. inversion Hg'; subst m'.
+      rewrite (MP_keys _ _ _ HM), Hf. reflexivity. }
+    specialize (X Ho). clear Ho.
+    destruct (st_insert_f ms (ua_view (uw_alloc w)) e v f) as [[ms1 r] f1]. cbn [fst snd] in *.
+    destruct X as [X1 [X2 [_ [_ X5]]]]. unfold step_ok. cbn [fst snd uw_put uw_with uw_stores intro_uids app].
+    split; [assumption|]. split; [assumption|].
+    destruct r as [|t0|g].
+    + unfold out_unless_panic. destruct (f_pan f1); intros x [].
+    + cbn [out_toks]. intros x [<-|[]]. apply X5. reflexivity.
+    + unfold out_unless_panic. destruct (f_pan f1); intros x [].
+  - (* delete_entity *)
+    destruct (uhget (uw_hs w) h) as [e|]; [|apply (step_ok_same w G); [assumption|intros t []]].
+    destruct (a_kill true (uw_alloc w) [e]) as [a' r].
+    destruct (purge_LJ (map fst (killed_prefix [e] r)) (uw_table w) _ G f L0 used HJ Hp) as [G' [A B]].
+    destruct (purge_tbl_f (uw_stores w) (uw_table w) (map fst (killed_prefix [e] r)) f) as [stores f1]. cbn [fst snd] in *.
+    unfold step_ok. cbn [fst snd uw_with uw_stores intro_uids app]. split; [eauto|]. split; [assumption|].
+    unfold out_unless_panic. destruct (f_pan f1); intros t [].
+  - (* delete_entities *)
+    destruct (uhget_all (uw_hs w) hs) as [es|]; [|apply (step_ok_same w G); [assumption|intros t []]].
+    destruct (a_kill true (uw_alloc w) es) as [a' r].
+    destruct (purge_LJ (map fst (killed_prefix es r)) (uw_table w) _ G f L0 used HJ Hp) as [G' [A B]].
+    destruct (purge_tbl_f (uw_stores w) (uw_table w) (map fst (killed_prefix es r)) f) as [stores f1]. cbn [fst snd] in *.
+    unfold step_ok. cbn [fst snd uw_with uw_stores intro_uids app]. split; [eauto|]. split; [assumption|].
+    unfold out_unless_panic. destruct (f_pan f1); intros t [].
+  - (* delete_all *)
+    destruct (a_kill true (uw_alloc w) (a_entities (uw_alloc w))) as [a' r].
+    destruct (purge_LJ (map fst (killed_prefix (a_entities (uw_alloc w)) r)) (uw_table w) _ G f L0 used HJ Hp) as [G' [A B]].
+    destruct (purge_tbl_f (uw_stores w) (uw_table w) (map fst (killed_prefix (a_entities (uw_alloc w)) r)) f) as [stores f1].
+    cbn [fst snd] in *. unfold step_ok. cbn [fst snd intro_uids app].
+    split; [exists G'; destruct r; [destruct (f_pan f1)|]; exact A|]. split; [assumption|].
+    unfold out_unless_panic. destruct (f_pan f1); intros t [].
+  - (* entities.delete *)
+    destruct (uhget (uw_hs w) h) as [e|]; [|apply (step_ok_same w G); [assumption|intros t []]].
+    destruct (a_kill_atomic (uw_alloc w) e) as [a' r]. unfold step_ok. cbn [fst snd uw_with uw_stores intro_uids app out_toks].
+    split; [eauto|]. split; [reflexivity|intros t []].
+  - (* maintain *)
+    destruct (a_merge (uw_alloc w)) as [a' deleted].
+    assert (exists G', LJ P (fst (purge_tbl_f (uw_stores w) (uw_table w) (map fst deleted) f)) G'
+                          (cx_drops (fx (snd (purge_tbl_f (uw_stores w) (uw_table w) (map fst deleted) f))) ++ L0) used /\
+                       cx_stuck (fx (snd (purge_tbl_f (uw_stores w) (uw_table w) (map fst deleted) f))) = cx_stuck (fx f)) as X
+      by (apply (purge_LJ _ _ _ G); assumption).
+    destruct deleted as [|d deleted].
+    + unfold step_ok. cbn [fst snd uw_with uw_stores intro_uids app]. split; [eauto|]. split; [reflexivity|].
+      unfold out_unless_panic. rewrite Hp. intros t [].
+    + destruct (purge_tbl_f (uw_stores w) (uw_table w) (map fst (d :: deleted)) f) as [stores f1]. cbn [fst snd] in *.
+      destruct X as [G' [A B]]. unfold step_ok. cbn [fst snd uw_with uw_stores intro_uids app]. split; [eauto|]. split; [assumption|].
+      unfold out_unless_panic. destruct (f_pan f1); intros t [].
+  - (* drop of one storage *)
+    destruct (NM.find sid (uw_stores w)) as [ms|] eqn:Hs; [|apply (step_ok_same w G); [assumption|intros t []]].
+    destruct (clear_LJ (hord_of sid orc) _ G f L0 used sid ms HJ Hp Hs) as [A [B _]].
+    destruct (m_clear_f (hord_of sid orc) ms f) as [ms1 f1]. cbn [fst snd] in *.
+    unfold step_ok. cbn [fst snd uw_with uw_stores intro_uids app out_toks]. split; [|split; [assumption|intros t []]].
+    exists (NM.remove sid G). apply (LJ_remove P _ _ _ _ sid) in A.
+    eapply (LJ_ext P); [| |exact A].
+    + intros j. rewrite !find_remove. destruct (N.eq_dec sid j); [reflexivity|]. rewrite find_add. destruct (N.eq_dec sid j); congruence.
+    + intros j. rewrite !find_remove. destruct (N.eq_dec sid j); [reflexivity|]. rewrite find_add. destruct (N.eq_dec sid j); congruence.
+  - (* drop of the world *)
+    destruct (drop_world_LJ orc _ G f L0 used HJ Hp) as [A B]. unfold step_ok. cbn [fst snd uw_stores intro_uids app out_toks].
+    split; [eauto|]. split; [assumption|intros t []].
+  - (* mask *)
+    destruct (NM.find sid (uw_stores w)) as [ms|] eqn:Hs; (apply (step_ok_same w G); [assumption|intros t []]).
+  - (* get *)
+    destruct (NM.find sid (uw_stores w)) as [ms|] eqn:Hs; [|apply (step_ok_same w G); [assumption|intros t []]].
+    destruct (uhget (uw_hs w) h) as [e|]; [|apply (step_ok_same w G); [assumption|intros t []]].
+    destruct (WJ_lookup _ _ _ _ HW Hs) as [m [Hg HM]].
+    destruct (st_get_own P ms m (ua_view (uw_alloc w)) e (fx f) HM) as [A B].
+    destruct (st_get ms (ua_view (uw_alloc w)) e (fx f)) as [r c1]. cbn [fst snd] in *. subst c1. rewrite f_with_self.
+    apply (step_ok_same w G); [assumption|]. cbn [out_toks]. destruct r as [t0|]; [|intros t []]. intros t [<-|[]].
+    destruct (B t0 eq_refl) as [Hf _]. apply (Hlive sid ms (fst e) t0 Hs m Hg). left. assumption.
+  - (* get of every handle *)
+    destruct (NM.find sid (uw_stores w)) as [ms|] eqn:Hs; [|apply (step_ok_same w G); [assumption|intros t []]].
+    destruct (WJ_lookup _ _ _ _ HW Hs) as [m [Hg HM]].
+    destruct (get_all_own P ms m (ua_view (uw_alloc w)) (rev (uw_hl w)) (fx f) HM) as [A B].
+    destruct (get_all ms (ua_view (uw_alloc w)) (rev (uw_hl w)) (fx f)) as [l c1]. cbn [fst snd] in *. subst c1. rewrite f_with_self.
+    apply (step_ok_same w G); [assumption|]. cbn [out_toks]. intros t Hin. apply somes_in in Hin.
+    clear - B Hin Hlive Hs Hg. induction B as [|e o es l' Ho B IH]; [destruct Hin|].
+    destruct Hin as [->|Hin]; [|apply IH; assumption]. destruct (Ho t eq_refl) as [Hf _].
+    apply (Hlive sid ms (fst e) t Hs m Hg). left. assumption.
+  - (* join *)
+    destruct (NM.find sid (uw_stores w)) as [ms|] eqn:Hs; [|apply (step_ok_same w G); [assumption|intros t []]].
+    destruct (WJ_lookup _ _ _ _ HW Hs) as [m [Hg HM]].
+    destruct (join_own P ms m (fx f) HM) as [A B].
+    destruct (join_vals (ms_raw ms) (NS.elements (ms_mask ms)) (fx f)) as [l c1]. cbn [fst snd] in *. subst c1. rewrite f_with_self.
+    apply (step_ok_same w G); [assumption|]. cbn [out_toks]. intros t Hin. apply in_map_iff in Hin. destruct Hin as [[i t'] [E Hin]].
+    cbn [snd] in E. subst t'. apply (Hlive sid ms i t Hs m Hg). left. apply B. assumption.
+  - (* slice *)
+    destruct (NM.find sid (uw_stores w)) as [ms|] eqn:Hs; [|apply (step_ok_same w G); [assumption|intros t []]].
+    destruct (ms_wrap ms); [|apply (step_ok_same w G); [assumption|intros t []]|apply (step_ok_same w G); [assumption|intros t []]].
+    destruct (WJ_lookup _ _ _ _ HW Hs) as [m [Hg HM]].
+    destruct (slice_own P ms m (fx f) HM) as [A B].
+    destruct (u_slice (ms_raw ms) (NS.elements (ms_mask ms)) (fx f)) as [v c1]. cbn [fst snd] in *. subst c1. rewrite f_with_self.
+    apply (step_ok_same w G); [assumption|]. cbn [out_toks]. intros t Hin. destruct (B t Hin) as [i Ho].
+    apply (Hlive sid ms i t Hs m Hg Ho).
+  - (* count *)
+    destruct (NM.find sid (uw_stores w)) as [ms|] eqn:Hs; (apply (step_ok_same w G); [assumption|intros t []]).
+  - (* probe *) apply (step_ok_same w G); [assumption|intros t []].
+  - (* bad *) apply (step_ok_same w G); [assumption|intros t []].
+Qed.
+
 End World.
